@@ -8,8 +8,11 @@ from nvlib.check import Prop
 
 DIRS = ["u1", "u2", "bb", "root", "odd"]
 FILES = ["a", "b", "c"]
-NAMES = ["u1", "u2", "Backbone", "Root", "NONAME", "zed", "x9", ""]
-CF_SPECS = ["s:u1", "s:u2", "s:Backbone", "s:Root", "s:NONAME", "s:zed", "s:", "i:0", "i:7", "i:-1", "arr", "err", "none"]
+NAMES = ["u1", "u2", "Backbone", "Root", "NONAME", "zed", "x9", "", "root", "U1"]     # uid names are case sensitive
+CF_SPECS = ["s:u1", "s:u2", "s:Backbone", "s:Root", "s:NONAME", "s:zed", "s:", "i:0", "i:7", "i:-1", "arr", "err", "none",
+            "s:root", "s:backbone", "s:U1",
+            # re-entrancy: the master drops its own euid inside creator_file when it is the creating object
+            "drop+s:Backbone", "drop+s:Backbone", "drop+s:Root", "drop+s:u1", "drop+err", "drop+i:0"]
 VS_SPECS = [("i:1", 6), ("i:0", 6), ("i:-3", 1), ("s:yes", 1), ("s:", 1), ("arr", 1), ("err", 1), ("none", 2)]
 
 
@@ -33,44 +36,67 @@ class C20(Prop):
         "NV.C20.tie_export_error", "NV.C20.tie_export_target", "NV.C20.tie_export_assign",
         "NV.C20.tie_seteuid_shape", "NV.C20.tie_seteuid_verdict", "NV.C20.tie_seteuid_null_verdict",
         "NV.C20.tie_giveuid_shape",
+        # round 5: inventory of every uid/euid write in the driver; interleaved statement order of the anchor functions
+        "NV.C20.tie_uid_writes_governed", "NV.C20.tie_uid_write_inventory", "NV.C20.tie_uid_rules_all_used", "NV.C20.tie_uid_records_never_renamed",
+        "NV.C20.tie_seteuid_order", "NV.C20.tie_export_order", "NV.C20.tie_set_master_shape", "NV.C20.tie_reload_shape",
+        "NV.C20.tie_load_tail_shape", "NV.C20.tie_clone_shape", "NV.C20.tie_init_object_shape", "NV.C20.tie_load_virtual_shape", "NV.C20.tie_bind_shape",
+        "NV.C20.tie_make_new_name_shape", "NV.C20.tie_destruct_vital_shape", "NV.C20.tie_error_texts",
     ]
     consts = [("autoTrustBackbone", "NV_AUTO_TRUST_BACKBONE"), ("autoSeteuid", "NV_AUTO_SETEUID"),
-              ("tNumber", "T_NUMBER"), ("tString", "T_STRING"), ("msMudlibLimbo", "MS_MUDLIB_LIMBO")]
-    const_headers = ["lib/efuns/options.h", "lpc/types.h", "src/simulate.h"]
+              ("tNumber", "T_NUMBER"), ("tString", "T_STRING"), ("msMudlibLimbo", "MS_MUDLIB_LIMBO"),
+              ("tObject", "T_OBJECT"), ("oDestructed", "O_DESTRUCTED"), ("oClone", "O_CLONE"), ("oVirtual", "O_VIRTUAL"),
+              ("oHeartBeat", "O_HEART_BEAT"), ("fpLocal", "FP_LOCAL"), ("fpNotBindable", "FP_NOT_BINDABLE"),
+              ("fpFunctional", "FP_FUNCTIONAL")]
+    const_headers = ["lib/efuns/options.h", "lpc/types.h", "lpc/object.h", "lpc/include/function.h", "src/simulate.h"]
     const_prelude = ("#ifdef AUTO_TRUST_BACKBONE\n#define NV_AUTO_TRUST_BACKBONE 1\n#else\n#define NV_AUTO_TRUST_BACKBONE 0\n#endif\n"
                      "#ifdef AUTO_SETEUID\n#define NV_AUTO_SETEUID 1\n#else\n#define NV_AUTO_SETEUID 0\n#endif\n")
     quick_n = 400
     thorough_n = 6000
     search_n = 1500
     design_ref = "5/C20"
-    technique = ("Lean 4 proof (invariant + per-step oracle clauses, induction over histories, all master policies as oracle "
-                 "functions) + translator-generated option macros + model/implementation correspondence on the real driver")
+    technique = ("Lean 4 proof (invariant + per-segment oracle clauses, induction over histories and over the nesting fuel, all master "
+                 "policies as oracle functions) + translator (clang AST -> regenerated guards, statement-order shapes, inventory of "
+                 "every uid/euid write in the driver, bridged by Lean lemmas) + model/implementation correspondence on the real driver")
     level_text = ("Lean 4 theorems about an executable model of give_uid_to_object, the euid tests of load_object/clone_object "
-                  "(master exemption), f_seteuid, f_export_uid, f_getuid/f_geteuid and reload_object: for every history of "
-                  "load/clone/seteuid/export_uid/destruct/reload_object by any objects (also from inside create() of objects under "
-                  "construction, also of virtual objects made by master::compile_object) and every master policy the "
-                  "specification oracle judgeEv accepts the model's event trace; the model is tied to the source by the "
-                  "regenerated AUTO_TRUST_BACKBONE/AUTO_SETEUID options and by running the real driver (ASan+UBSan) with a "
-                  "policy-switchable logging master and the model on the same generated histories; the same oracle judges "
-                  "every implementation trace")
-    level_note = ("trusted: Lean kernel; extract.py; the correspondence harness (differential, only the generated histories); "
-                  "master applies are oracle functions (a master that calls back into the acting object during an apply is not "
-                  "modelled); master/simul_efun reload and function-pointer geteuid are not modelled")
-    rule = ("cases = corpus + known-finding inputs + boundary list + seeded random histories of load/clone/seteuid(string|int)/"
-            "export_uid (also onto itself / onto missing objects)/destruct (also of the master = master reload)/reload_object, "
-            "directly, from inside create() of objects under construction (acyclic scripts, nesting up to 8), through function "
-            "pointers evaluated by other objects, and on virtual paths answered by master::compile_object, "
-            "performed by the master and by objects under five directories whose "
+                  "(master exemption, none for the simul_efun object), f_seteuid, f_export_uid, f_getuid/f_geteuid, f_bind (master "
+                  "valid_bind), reload_object and set_master (first load with/without get_root_uid()/get_bb_uid(), reload with a "
+                  "changed get_root_uid() answer): for every history of load/clone/seteuid/export_uid/destruct/reload_object/"
+                  "function-pointer evaluation/bind() by any objects incl. the master and the simul_efun object (also from inside "
+                  "create() of objects under construction, also of virtual objects made by master::compile_object, also with a "
+                  "master whose creator_file calls back into itself and drops its euid mid-creation) and every master policy the "
+                  "specification oracle judgeEv (8 clauses) accepts the model's event trace; the model is tied to the source by 29 "
+                  "regenerated bridging lemmas: path conditions of the euid tests, MASTER_APPROVED semantics, interleaved statement "
+                  "order of f_seteuid/f_export_uid/f_bind/set_master/reload_object/load_object/clone_object/give_uid_to_object, and an "
+                  "inventory of EVERY write to object_t.uid/euid in src/ and lib/ with a Lean-checked table that each falls under an "
+                  "enumerated rule and is dominated by the master apply it needs; and by running the real driver (ASan+UBSan) with a "
+                  "policy-switchable logging master (8 variants) and the model on the same generated histories; the same oracle "
+                  "judges every implementation trace")
+    level_note = ("trusted: Lean kernel; extract.py and props/c20_extract.py (clang-14 AST translator, source text scan); the "
+                  "correspondence harness (differential, only the generated histories); master applies are oracle functions; a "
+                  "master calling back into ANOTHER creating object during creator_file, call_out/heart_beat/preload/connect "
+                  "contexts, shadows and the uid AVL tree are outside the model")
+    rule = ("cases = corpus + boundary list + seeded random histories of load (also through call_other / tell_room on a file name)/clone/seteuid(string|int)/"
+            "export_uid (also onto itself / onto missing objects)/destruct (also of the master = master reload, also after "
+            "get_root_uid()/get_bb_uid() changed their answers; of the simul_efun object)/reload_object, directly, from inside create() "
+            "of objects under construction (acyclic scripts, nesting up to 8), through function pointers evaluated by other objects, "
+            "through efun pointers re-bound with bind() (valid_bind verdicts), and on virtual paths answered by "
+            "master::compile_object, performed by the master, the simul_efun object and objects under five directories whose "
             "creator_file answer (own name, other user's name, backbone uid, root uid, NONAME, empty string, int, array, 0, "
-            "runtime error) and valid_seteuid verdicts (1, 0, other ints, string, array, 0, runtime error; per object and uid) "
-            "are switched during the case; a case is non-trivial when its trace has >= 2 lines; distinct = distinct "
-            "canonical implementation trace")
+            "runtime error, each optionally after the master dropped its own euid inside the apply) and valid_seteuid / valid_bind "
+            "verdicts (1, 0, other ints, string, array, 0, runtime error; per object and uid) are switched during the case; one "
+            "case in four under another configuration (master without get_root_uid / get_bb_uid / valid_bind, simul_efun object as "
+            "actor); a case is non-trivial when its trace has >= 2 lines; distinct = distinct canonical implementation trace")
     not_covered = ["the branch of clone_object that re-uses an unreferenced virtual object instead of asking compile_object again (ob->ref == 1) cannot occur with registered objects and is not modelled",
-                   "reload of the simul_efun object, reload_object(master), a master without get_root_uid()/get_bb_uid() (cfg.bb = none is proved but not run), bind(), "
-                   "loads started by the driver itself without a current_object (preload, connect(); the translator tie `tie_load_no_current` covers the guard) and creation from call_out/heart_beat are not exercised",
-                   "a master apply that calls back into the creating object (e.g. makes it seteuid(0) during creator_file) is not modelled",
-                   "the simul_efun object has uid NONAME / euid 0 and no exemption in load_object/clone_object; it is not an actor in the harness",
-                   "geteuid(function) is not exercised",
+                   "loads started by the driver itself without a current_object (preload, connect(); the translator tie `tie_load_no_current` covers the guard) and creation from "
+                   "call_out/heart_beat contexts are not exercised (the euid tests read only current_object: regenerated guards mention nothing else)",
+                   "a master apply that calls back into a creating object OTHER than the master (e.g. makes a wizard's object seteuid(0) during creator_file) is not modelled: "
+                   "the object would still be created (give_uid_to_object does not re-test); only the master's callback into itself is run and proved",
+                   "a master without get_root_uid() is not reloaded in the harness (its uids would come from an unlogged creator_file answer of the old master); "
+                   "reload_object(master) and destruct of the simul_efun object are refused by harness / driver and only that refusal is compared",
+                   "bind() is exercised with efun pointers (find_object(path, 1) / clone_object) only; simul_efun pointers and the "
+                   "FP_NOT_BINDABLE refusals are pinned by tie_bind_shape but not run; f_bind copies the reference count of the old pointer (leak, not a uid matter)",
+                   "uid records (userid_t, AVL tree, add_uid / uidcmp) are modelled as names: valid because no record is ever renamed after the first master load (tie_uid_records_never_renamed)",
+                   "shadows, hidden objects, 'Cannot clone from a clone', inherit chains (load_object restarts itself and so repeats its test) and valid_object are not modelled",
                    "load_object leaves a never-created object in the object table when valid_object/creator_file raise (C08 territory); "
                    "the model mirrors it (`half`), only its uid is repaired by the second fix: commit"]
 
@@ -98,17 +124,72 @@ class C20(Prop):
         tn = X.probe_values(bdir, [("tNumber", "T_NUMBER")], ["lpc/types.h"])["tNumber"]
         return c20_extract.generate(bdir, tn)
 
+    # ---- configurations: which verification master / simul_efun object a case runs under (`cfg` first line) ----
+    CFG_FLAGS = ("nobb", "noroot", "novb", "simul")
+    MASTER_MACROS = {"nobb": "C20_NO_BB", "noroot": "C20_NO_ROOT", "novb": "C20_NO_VB"}
+
+    @staticmethod
+    def cfg_key(case):
+        for l in case.lines:
+            t = l.split()
+            if t and t[0] == "cfg":
+                return tuple(f for f in C20.CFG_FLAGS if f in t[1:])
+            if t and not l.startswith("#"):
+                break
+        return ()
+
     def prepare(self, ctx):
         self.exe = E.compile_harness("c20", [os.path.join(E.VERIF, "harness/c20/c20.c")])
         self.conf = E.make_mudlib(ctx.rundir, master="/c20/master.c")
+        base = open(self.conf).read()
+        self.confs = {(): self.conf}
+        mud = os.path.join(ctx.rundir, "mudlib")
+        for n in range(1, 1 << len(self.CFG_FLAGS)):
+            key = tuple(f for i, f in enumerate(self.CFG_FLAGS) if n >> i & 1)
+            t = base
+            mflags = [f for f in key if f in self.MASTER_MACROS]
+            if mflags:
+                # master variant: the same master with some applies compiled out
+                master = "/c20/master_%s.c" % "_".join(mflags)
+                with open(os.path.join(mud, master.lstrip("/")), "w") as f:
+                    f.write("// C20 verification master variant (cfg %s), written by props/c20.py\n" % " ".join(mflags) +
+                            "".join("#define %s\n" % self.MASTER_MACROS[x] for x in mflags) + '#include "/c20/master.c"\n')
+                t = t.replace("/c20/master.c", master)
+            if "simul" in key:
+                t2 = re.sub(r"(?m)^(SimulEfunFile\s+)\S+", r"\g<1>/c20/simul.c", t)
+                if t2 == t:
+                    raise RuntimeError("base.conf.in has no SimulEfunFile line")
+                t = t2
+            path = os.path.join(ctx.rundir, "verif-%s.conf" % "-".join(key))
+            with open(path, "w") as f:
+                f.write(t)
+            self.confs[key] = path
 
     def run_impl(self, ctx, cases):
-        return E.run_harness(self.exe, self.conf, cases, ctx.rundir)
+        groups = {}
+        for c in cases:
+            groups.setdefault(self.cfg_key(c), []).append(c)
+        out = {}
+        for key in sorted(groups):
+            out.update(E.run_harness(self.exe, self.confs[key], groups[key], ctx.rundir))
+        return out
+
+    # efuns that reach load_object through find_or_load_object with the caller as current_object are harness ops of their
+    # own (`call,<path>` = call_other on a file name, `calla` = inside an array of targets, `tellroom` = tell_room on a file
+    # name); the model knows ONE load: they are compared with (and judged as) its `load` op
+    ALIAS = re.compile(r"(?<![A-Za-z0-9_])(?:call|calla|tellroom),(?=/)")
+
+    def run_model(self, ctx, cases):
+        mapped = [E.Case(c.id, [self.ALIAS.sub("load,", l) if l.startswith(("do ", "script ")) else l for l in c.lines], c.meta)
+                  for c in cases]
+        return E.nvdrive(self.id, "model", E.cases_text(mapped))
 
     def canon(self, lines):
         out = []
         for l in lines:
             l = l.rstrip()
+            if l.startswith("do "):
+                l = self.ALIAS.sub("load,", l)
             if not l or l.startswith("sanitizer "):
                 continue
             if l.startswith("crash"):
@@ -240,6 +321,85 @@ class C20(Prop):
                                  "do u1a via,m,load,/c20/bb/a"])
         mk("funptr-in-create", ["script /c20/u2/a via,u1a,load,/c20/u2/b;via,u2a,load,/c20/u2/c;load,/c20/u2/c",
                                 "do m load,/c20/u1/a", "do u1a seteuid,s:u1", "do u1a load,/c20/u2/a"])
+        # ---- round 5: re-entrancy - creator_file makes the creating object (the master) seteuid(0) before it answers; the
+        # backbone rule then sees NO creator euid (a cached value would hand the old euid to the new object)
+        mk("cf-drop-master", ["pol cf bb drop+s:Backbone", "do m load,/c20/bb/a", "pol vs m * i:1", "do m seteuid,s:Root",
+                              "do m clone,c1,/c20/bb/b", "do m seteuid,s:zed", "pol cf root drop+s:Root", "do m load,/c20/root/a",
+                              "do m seteuid,s:Root", "pol cf u1 drop+err", "do m load,/c20/u1/a", "do m load,/c20/u1/a",
+                              "do m seteuid,s:Root", "pol cf u1 drop+s:u1", "do m clone,c2,/c20/u1/b"])
+        mk("cf-drop-other-creators", ["pol cf bb drop+s:Backbone", "do m load,/c20/u1/a", "do u1a seteuid,s:u1", "do u1a load,/c20/bb/a",
+                                      "do u1a via,m,load,/c20/bb/b", "pol co u2 t:/c20/bb/c", "do u1a load,/c20/u2/v1",
+                                      "script /c20/bb/c# load,/c20/bb/c", "do m seteuid,s:Root", "do u1a clone,c1,/c20/u2/v2",
+                                      "do m dest,m", "do m load,/c20/bb/c"])
+        mk("cf-drop-noroot-simul", ["cfg noroot simul", "pol cf bb drop+s:Backbone", "pol vs m * i:1", "do m seteuid,s:Backbone",
+                                    "do m load,/c20/bb/a", "do se seteuid,s:zed", "do se load,/c20/bb/b", "do m seteuid,s:x9",
+                                    "do se via,m,clone,c1,/c20/bb/b"])
+        # uid names are case sensitive and compared as whole strings: "root" is not "Root", "backbone" gives no euid
+        mk("uid-name-case", ["pol cf u1 s:root", "pol cf u2 s:backbone", "pol cf odd s:U1", "do m load,/c20/u1/a", "do m load,/c20/u2/a",
+                             "do m load,/c20/odd/a", "do u1a seteuid,s:Root", "do u1a load,/c20/u1/b", "do u1a load,/c20/root/a",
+                             "do u2a seteuid,s:backbone", "do u2a load,/c20/bb/a", "do u2a load,/c20/u2/b", "do odda seteuid,s:u1",
+                             "pol cf u1 s:u1", "do odda load,/c20/u1/c", "do odda export,u1b", "do m seteuid,s:root", "do m load,/c20/root/b"])
+        # ---- round 5: the other efuns that load an object by name for their caller
+        mk("load-by-other-efuns", ["do m load,/c20/u1/a", "do u1a call,/c20/u1/b", "do u1a calla,/c20/u1/b", "do u1a tellroom,/c20/u1/b",
+                                   "do u1a seteuid,s:u1", "do u1a call,/c20/u1/b", "do u1a calla,/c20/u1/c", "do u1a tellroom,/c20/u2/a",
+                                   "do u1a call,/c20/u1/nofile", "do u1a calla,/c20/u1/nofile", "do u1a tellroom,/c20/u1/nofile",
+                                   "pol cf u2 err", "do u1a call,/c20/u2/b", "do u1a calla,/c20/u2/b", "pol co odd t:/c20/u2/c",
+                                   "pol cf u2 s:u2", "do u1a tellroom,/c20/odd/v1", "do u2a call,/c20/odd/v2",
+                                   "script /c20/bb/a call,/c20/bb/b;calla,/c20/u1/c", "do u2a via,u1a,call,/c20/bb/a",
+                                   "do u2a call,/c20/bb/c"])
+        # ---- round 5: a reloaded master announces ANOTHER root uid (and backbone uid): it gets that uid through add_uid, the uid
+        # record of the first root uid is not renamed - every object created before keeps its uid / euid names
+        mk("master-reload-other-root", ["do m load,/c20/root/a", "do m load,/c20/bb/a", "do roota seteuid,s:Root", "pol vs * * i:1",
+                                        "do m load,/c20/u1/a", "do u1a seteuid,s:Root", "pol root zed", "pol bb u1", "do u1a dest,m",
+                                        "do m load,/c20/root/b", "do m load,/c20/bb/b", "do roota load,/c20/root/c",
+                                        "pol root u1", "do m dest,m", "do m load,/c20/u1/b", "pol root Root", "do roota dest,m",
+                                        "do m clone,c1,/c20/root/a", "pol root Backbone", "do m dest,m", "do m load,/c20/bb/c"])
+        mk("master-reload-other-root-simul", ["cfg simul nobb", "pol root NONAME", "do m load,/c20/root/a", "do m dest,m",
+                                              "do m load,/c20/odd/a", "do m export,se", "pol root x9", "do m dest,m", "do m export,roota"])
+        # ---- round 5: bind() - an efun pointer made by one object is re-bound to another (master valid_bind) and then
+        # creates with the NEW owner as current_object
+        mk("bind", ["do m load,/c20/u1/a", "do m load,/c20/u2/a", "do u1a seteuid,s:u1", "do u2a bind,u1a,load,/c20/u1/b",
+                    "pol vb u2a * i:0", "do u2a bind,u1a,load,/c20/u1/c", "pol vb u2a u1a err", "do u2a bind,u1a,clone,c1,/c20/u1/b",
+                    "pol vb * * i:1", "do u1a bind,u2a,load,/c20/u2/b", "do u1a bind,u1a,clone,c2,/c20/u1/b",
+                    "pol vb u1a u1a i:0", "do u1a bind,u1a,clone,c4,/c20/u1/b", "do u1a bind,zz,load,/c20/u1/c",
+                    "do u1a bind,u2a,seteuid,s:x9", "pol vb u1a m s:yes", "do u1a bind,m,load,/c20/bb/a", "pol vb * * arr",
+                    "do u2a bind,m,clone,c3,/c20/bb/b", "pol vb * * none", "do u2a bind,m,load,/c20/bb/c",
+                    "do zz bind,m,load,/c20/bb/c", "do u2a via,u1a,bind,m,load,/c20/bb/c", "pol vb u1a * i:-2",
+                    "do u2a via,u1a,bind,m,load,/c20/bb/c", "do u2a bind,u1a,load,/c20/u1/nofile"])
+        mk("bind-nested", ["script /c20/u2/a bind,u1a,load,/c20/u2/b;bind,m,clone,c1,/c20/u2/b;load,/c20/u2/c",
+                           "script /c20/u2/b bind,u2a,load,/c20/u2/c", "pol vb u2a m i:0", "do m load,/c20/u1/a", "do u1a seteuid,s:u1",
+                           "do u1a load,/c20/u2/a", "pol co u1 t:/c20/u2/c", "do u2a bind,u1a,load,/c20/u1/v1",
+                           "do u2a bind,u1a,clone,c5,/c20/u1/v1", "pol cf bb drop+s:Backbone", "do u2a bind,m,load,/c20/bb/a"])
+        mk("bind-simul", ["cfg simul noroot", "do se bind,m,load,/c20/u1/a", "do m bind,se,load,/c20/u1/b", "do se seteuid,s:zed",
+                          "do m bind,se,load,/c20/u1/b", "pol vb se * i:0", "do se bind,m,clone,c1,/c20/u1/a"])
+        # master without valid_bind(): apply_master_ob returns NULL = refusal; binding to oneself still needs nobody
+        mk("bind-novb", ["cfg novb", "do m load,/c20/u1/a", "do m load,/c20/u2/a", "do u1a seteuid,s:u1", "do u2a bind,u1a,load,/c20/u1/b",
+                         "do u1a bind,u1a,load,/c20/u1/b", "do u1a bind,m,clone,c1,/c20/u1/b", "do m bind,u1a,clone,c2,/c20/u1/b"])
+        # ---- round 5: other configurations of the mudlib (first line `cfg ...`) ---------------------------------------
+        # master without get_bb_uid(): set_master sets no backbone uid, a "Backbone" answer is an ordinary name
+        mk("cfg-nobb", ["cfg nobb", "do m load,/c20/bb/a", "do bba seteuid,s:u1", "do bba clone,c1,/c20/bb/b", "pol cf u1 s:Backbone",
+                        "do bba load,/c20/u1/a", "do bba seteuid,s:Backbone", "do bba load,/c20/bb/c", "do m dest,m", "do m load,/c20/bb/b"])
+        # master without get_root_uid(): it keeps "NONAME" / 0 from before the master existed, is still exempt from the tests
+        mk("cfg-noroot", ["cfg noroot", "do m load,/c20/u1/a", "do m load,/c20/bb/a", "do m clone,c1,/c20/odd/a", "do m export,u1a",
+                          "pol vs m * i:1", "do m seteuid,s:Root", "do m load,/c20/bb/b", "do m export,u1a", "do m seteuid,i:0",
+                          "do u1a seteuid,s:u1", "do u1a dest,m", "do m dest,m", "do m load,/c20/bb/c", "pol cf u2 s:NONAME",
+                          "do m load,/c20/u2/a"])
+        mk("cfg-nobb-noroot", ["cfg nobb noroot", "do m load,/c20/bb/a", "do m seteuid,s:Backbone", "do m load,/c20/bb/b",
+                               "do bbb seteuid,s:x9", "do bbb clone,c1,/c20/bb/c", "do m dest,m"])
+        # the simul_efun object as actor: "NONAME" / 0 from before the master existed, no exemption in load / clone
+        mk("cfg-simul", ["cfg simul", "do se load,/c20/u1/a", "do se clone,c1,/c20/u1/a", "do m load,/c20/u2/a", "do se load,/c20/u2/a",
+                         "do se export,u2a", "do se seteuid,s:u1", "do se load,/c20/u1/a", "do se clone,c1,/c20/u1/b",
+                         "do se export,u2a", "do se seteuid,i:0", "do m export,se", "do se seteuid,s:zed", "do m export,se",
+                         "do m dest,se", "do se dest,se", "do u1a dest,se", "do m reload,se", "do se load,/c20/u1/c",
+                         "do se seteuid,s:x9", "do u1a via,se,load,/c20/u1/c", "do se via,u1a,load,/c20/bb/a",
+                         "do se clone,se,/c20/u1/a", "do m clone,se,/c20/u1/a", "do se load,/c20/odd/a", "do se load,/c20/bb/a",
+                         "do se dest,m", "do se seteuid,i:0", "do se dest,m"])
+        mk("cfg-simul-script", ["cfg simul", "script /c20/simul seteuid,s:zed;load,/c20/u2/a;dest,se;reload,se",
+                                "script /c20/u2/a reload,se;export,se", "do m reload,se", "do se reload,se", "do m load,/c20/u2/b",
+                                "pol vs se * i:0", "do u2b reload,se"])
+        mk("cfg-all", ["cfg nobb noroot simul", "do se seteuid,s:Backbone", "do se load,/c20/bb/a", "do m load,/c20/bb/b",
+                       "do bba export,se", "do se export,m", "do m dest,m", "do se dest,m", "pol cf odd i:0", "do m load,/c20/odd/a",
+                       "do se seteuid,i:0", "do se load,/c20/odd/b"])
         return B
 
     def gen_scripts(self, rng):
@@ -263,7 +423,7 @@ class C20(Prop):
                 kind = rng.weighted([("load", 8), ("clone", 5), ("seteuid", 6), ("seteuid0", 1), ("export", 2), ("bad", 1)])
                 tgt = rng.choice(later_paths) if later_paths and rng.chance(2, 3) else rng.choice(free)
                 if kind == "load":
-                    ops.append("load,%s" % tgt)
+                    ops.append("%s,%s" % (rng.weighted([("load", 6), ("call", 1), ("calla", 1), ("tellroom", 1)]), tgt))
                 elif kind == "clone":
                     nclone[0] += 1
                     ops.append("clone,c%d,%s" % (nclone[0], tgt))
@@ -274,7 +434,7 @@ class C20(Prop):
                 elif kind == "export":
                     ops.append("export,%s" % rng.choice(["m", "c1", "c2", "u1a", "u2a", "bba"]))
                 else:
-                    ops.append(rng.choice(["dest,m", "reload,u1a", "reload,u2a", "reload,c1", "reload,bba", "load,/c20/u1/nofile",
+                    ops.append(rng.choice(["dest,m", "reload,u1a", "reload,u2a", "reload,c1", "reload,bba", "load,/c20/zz/nofile",
                                            "seteuid,i:7", "dest,u1a"]))
             lines.append("script %s %s" % (k, ";".join(ops)))
         return lines, chain
@@ -284,6 +444,14 @@ class C20(Prop):
         operations effective - it only steers choices, the expected behaviour always comes from the model"""
         lines = []
         objs = {"m": True}            # oid -> probably has an euid
+        # one case in four runs under another configuration (master variants, simul_efun object as actor `se`)
+        if rng.chance(1, 4):
+            flags = [f for f in self.CFG_FLAGS if rng.chance(1, 2)] or [rng.choice(list(self.CFG_FLAGS))]
+            lines.append("cfg " + " ".join(flags))
+            if "simul" in flags:
+                objs["se"] = False
+            if "noroot" in flags:
+                objs["m"] = False
         nclone = [0]
         nv = [0]
         refuse_default = rng.chance(1, 4)
@@ -343,8 +511,17 @@ class C20(Prop):
             if virt_dirs and rng.chance(1, 30):
                 lines.append("pol co %s %s" % (rng.choice(virt_dirs), rng.choice(["-", "none", "err", "i:0", "t:" + rng.choice(all_paths)])))
                 continue
+            if rng.chance(1, 40):
+                # the master's get_root_uid() / get_bb_uid() change their answer; then (often) the master is reloaded
+                lines.append("pol %s %s" % (rng.choice(["root", "root", "bb"]), rng.choice([n for n in NAMES if n])))
+                if rng.chance(2, 3):
+                    lines.append("do %s dest,m" % actor())
+                continue
             if rng.chance(1, 6):
-                if rng.chance(1, 2):
+                if rng.chance(1, 5):
+                    lines.append("pol vb %s %s %s" % (rng.choice(sorted(objs) + ["*", "*"]), rng.choice(sorted(objs) + ["*", "*"]),
+                                                     rng.weighted(VS_SPECS)))
+                elif rng.chance(1, 2):
                     lines.append("pol cf %s %s" % (rng.choice(DIRS), rng.choice(CF_SPECS)))
                 else:
                     o = rng.choice(sorted(objs) + ["*", "*"])
@@ -354,8 +531,13 @@ class C20(Prop):
             a = actor()
             caller = actor() if rng.chance(1, 8) else None
 
+            usebind = rng.chance(1, 2) if caller else False
+
             def DO(owner, op):
-                # optionally through a function pointer: <caller> evaluates a function made by <owner>
+                # optionally through a function pointer: <caller> evaluates a function made by <owner>, or (load / clone)
+                # <caller> makes an efun pointer, binds it to <owner> (master valid_bind) and runs it
+                if caller and usebind and op.startswith(("load,", "clone,")):   # (the other loading efuns are not bound)
+                    return "do %s bind,%s,%s" % (caller, owner, op)
                 return "do %s via,%s,%s" % (caller, owner, op) if caller else "do %s %s" % (owner, op)
             k = rng.weighted([("seteuid", 10), ("load", 9), ("clone", 9), ("export", 7), ("dest", 2), ("reload", 2),
                               ("seteuid0", 3), ("seteuidint", 1), ("cferr", 2)])
@@ -371,7 +553,7 @@ class C20(Prop):
                 lines.append(DO(a, "seteuid,i:%d" % rng.choice([1, -1, 5, 0])))
             elif k == "load":
                 p = path()
-                lines.append(DO(a, "load,%s" % p))
+                lines.append(DO(a, "%s,%s" % (rng.weighted([("load", 6), ("call", 1), ("calla", 1), ("tellroom", 1)]), p)))
                 created(a, p)
             elif k == "clone":
                 nclone[0] += 1
@@ -413,8 +595,13 @@ class C20(Prop):
              "seteuid_zero": 0, "export_ok": 0, "export_refused": 0, "export_error": 0, "noeuid_load_error": 0,
              "noeuid_clone_error": 0, "compile_object_calls": 0, "virtual_handed_out": 0, "funptr_ops": 0, "funptr_noeuid_refused": 0,
              "master_reloads": 0, "master_reload_refused": 0, "export_onto_self": 0, "nested_ops": 0, "nested_creations": 0, "nested_noeuid_refused": 0, "max_nesting": 0, "backbone_grants": 0, "policy_errors": 0, "nobj": 0, "reloads": 0,
-             "crash": 0}
+             "crash": 0, "cfg_nobb": 0, "cfg_noroot": 0, "cfg_novb": 0, "cfg_simul": 0, "simul_actor_ops": 0, "simul_dest_error": 0, "cf_callback_drops": 0,
+             "bind_ops": 0, "bind_asked": 0, "bind_denied": 0}
+        alias_ops = 0
         for c in cases:
+            alias_ops += sum(len(self.ALIAS.findall(l)) for l in c.lines)
+            for f in self.cfg_key(c):
+                h["cfg_" + f] += 1
             cur = None
             pend_cf = None
             stack = []
@@ -424,6 +611,10 @@ class C20(Prop):
                     continue
                 if t[0] == "do":
                     h["steps"] += 1
+                    if t[1] == "se":
+                        h["simul_actor_ops"] += 1
+                    if len(stack) >= 1 and t[1] == "m" and len(t) > 2 and t[2] == "seteuid,i:0" and cur and cur.split(",")[0] in ("load", "clone"):
+                        h["cf_callback_drops"] += 1
                     if len(t) > 2 and t[2] == "export," + t[1]:
                         h["export_onto_self"] += 1
                     stack.append(cur)
@@ -432,6 +623,8 @@ class C20(Prop):
                     h["max_nesting"] = max(h["max_nesting"], len(stack) - 1)
                     cur = t[2] if len(t) > 2 else ""
                     pend_cf = None
+                elif t[0] == "vb":
+                    h["bind_asked"] += 1
                 elif t[0] == "co":
                     h["compile_object_calls"] += 1
                 elif t[0] == "cf":
@@ -454,6 +647,10 @@ class C20(Prop):
                     r = " ".join(t[1:])
                     if cur.startswith("via,"):
                         h["funptr_ops"] += 1
+                    if cur.startswith("bind,"):
+                        h["bind_ops"] += 1
+                        if "Permission_of_binding" in r:
+                            h["bind_denied"] += 1
                     if cur == "dest,m":
                         h["master_reloads" if r == "1" else "master_reload_refused"] += 1
                     if len(stack) > 1 and stack[-1] and stack[-1].startswith("via,") and ("no_effective_user" in r or "without_effective_UID" in r):
@@ -470,6 +667,8 @@ class C20(Prop):
                         h["noeuid_load_error"] += 1
                     if "without_effective_UID" in r:
                         h["noeuid_clone_error"] += 1
+                    if "Cannot_destruct_simul" in r:
+                        h["simul_dest_error"] += 1
                     if "policy_error" in r:
                         h["policy_errors"] += 1
                     if r == "nobj":
@@ -479,6 +678,7 @@ class C20(Prop):
                     cur = stack.pop() if stack else None
                 elif t[0] == "crash":
                     h["crash"] += 1
+        h["loads_by_other_efuns_in_cases"] = alias_ops
         return h
 
 
